@@ -74,3 +74,97 @@ pub proof fn lemma_pw_merge(key: Seq<u64>, r: Seq<u64>, l: Seq<u64>, m: Map<u64,
     lemma_mono_perm(1real, key, r + l, m);
     lemma_mono_concat(r, l, l.len() as int, m);
 }
+// ---- the product map does not depend on the order in which the second operand lists its (distinct) keys ----
+// weight selecting the items of the second operand that land on key k when merged with the item a
+pub open spec fn gw(a: (Seq<u64>, F64), k: Seq<u64>) -> spec_fn(Seq<u64>) -> real { |kb: Seq<u64>| if skey(kb + a.0) == k { rv(a.1) } else { 0real } }
+pub open spec fn ghit(a: (Seq<u64>, F64), b: Seq<(Seq<u64>, F64)>, j: int, k: Seq<u64>) -> bool { exists|t: int| 0 <= t < j && skey(#[trigger] b[t].0 + a.0) == k }
+pub proof fn lemma_grow_val(g: Map<Seq<u64>, real>, a: (Seq<u64>, F64), b: Seq<(Seq<u64>, F64)>, j: int, k: Seq<u64>)
+    requires 0 <= j <= b.len()
+    ensures grow(g, a, b, j).contains_key(k) <==> (g.contains_key(k) || ghit(a, b, j, k)),
+        kbase(grow(g, a, b, j), k) == kbase(g, k) + kseq_sum(b, j, gw(a, k)),
+    decreases j
+{
+    if j > 0 {
+        lemma_grow_val(g, a, b, j - 1, k);
+        let prev = grow(g, a, b, j - 1); let kj = skey(b[j - 1].0 + a.0); let c = rv(a.1) * rv(b[j - 1].1);
+        assert(grow(g, a, b, j) == kbump(prev, kj, c));
+        let xa = rv(a.1); let xb = rv(b[j - 1].1);
+        assert(xb * xa == xa * xb) by(nonlinear_arith);
+        assert(xb * 0real == 0real) by(nonlinear_arith);
+        if ghit(a, b, j, k) && !ghit(a, b, j - 1, k) { let t = choose|t: int| 0 <= t < j && skey(#[trigger] b[t].0 + a.0) == k; assert(t == j - 1); }
+        if kj == k { assert(skey(b[j - 1].0 + a.0) == k); }
+        if ghit(a, b, j - 1, k) { let t = choose|t: int| 0 <= t < j - 1 && skey(#[trigger] b[t].0 + a.0) == k; assert(skey(b[t].0 + a.0) == k); }
+    }
+}
+pub proof fn lemma_klists_onto<K>(l: Seq<(K, F64)>, n: int, g: Map<K, real>, k: K) -> (i: int)
+    requires klists(l, n, g), g.contains_key(k)
+    ensures 0 <= i < n, l[i].0 == k
+    decreases n
+{
+    if n == 0 { assert(g.dom().len() == 0); assert(g.dom().contains(k)); assert(g.dom() =~= Set::<K>::empty()); 0 } else if l[n - 1].0 == k { n - 1 } else {
+        let kk = l[n - 1].0; let g2 = g.remove(kk);
+        assert(g2.dom() =~= g.dom().remove(kk));
+        assert forall|i: int| 0 <= i < n - 1 implies g2.contains_key((#[trigger] l[i]).0) && l[i].1@ == XR::Fin(g2[l[i].0]) by { assert(l[i].0 != l[n - 1].0); }
+        lemma_klists_onto(l, n - 1, g2, k)
+    }
+}
+pub proof fn lemma_grow_key(g: Map<Seq<u64>, real>, a: (Seq<u64>, F64), b1: Seq<(Seq<u64>, F64)>, b2: Seq<(Seq<u64>, F64)>, gg: Map<Seq<u64>, real>, k: Seq<u64>)
+    requires klists(b1, b1.len() as int, gg), klists(b2, b2.len() as int, gg)
+    ensures grow(g, a, b1, b1.len() as int).contains_key(k) <==> grow(g, a, b2, b2.len() as int).contains_key(k),
+        kbase(grow(g, a, b1, b1.len() as int), k) == kbase(grow(g, a, b2, b2.len() as int), k),
+{
+    let n1 = b1.len() as int; let n2 = b2.len() as int;
+    lemma_grow_val(g, a, b1, n1, k); lemma_grow_val(g, a, b2, n2, k);
+    lemma_klist_sum(b1, n1, gg, gw(a, k)); lemma_klist_sum(b2, n2, gg, gw(a, k));
+    if ghit(a, b1, n1, k) { let t = choose|t: int| 0 <= t < n1 && skey(#[trigger] b1[t].0 + a.0) == k; let t2 = lemma_klists_onto(b2, n2, gg, b1[t].0); assert(skey(b2[t2].0 + a.0) == k); }
+    if ghit(a, b2, n2, k) { let t = choose|t: int| 0 <= t < n2 && skey(#[trigger] b2[t].0 + a.0) == k; let t1 = lemma_klists_onto(b1, n1, gg, b2[t].0); assert(skey(b1[t1].0 + a.0) == k); }
+}
+pub proof fn lemma_grow_listing(g: Map<Seq<u64>, real>, a: (Seq<u64>, F64), b1: Seq<(Seq<u64>, F64)>, b2: Seq<(Seq<u64>, F64)>, gg: Map<Seq<u64>, real>)
+    requires klists(b1, b1.len() as int, gg), klists(b2, b2.len() as int, gg)
+    ensures grow(g, a, b1, b1.len() as int) == grow(g, a, b2, b2.len() as int)
+{
+    let m1 = grow(g, a, b1, b1.len() as int); let m2 = grow(g, a, b2, b2.len() as int);
+    assert forall|k: Seq<u64>| #[trigger] m1.contains_key(k) <==> m2.contains_key(k) by { lemma_grow_key(g, a, b1, b2, gg, k); }
+    assert forall|k: Seq<u64>| m1.contains_key(k) implies #[trigger] m1[k] == m2[k] by { lemma_grow_key(g, a, b1, b2, gg, k); }
+    assert(m1.dom() =~= m2.dom());
+    assert(m1 =~= m2);
+}
+pub proof fn lemma_gmat_listing(a: Seq<(Seq<u64>, F64)>, b1: Seq<(Seq<u64>, F64)>, b2: Seq<(Seq<u64>, F64)>, gg: Map<Seq<u64>, real>, i: int)
+    requires klists(b1, b1.len() as int, gg), klists(b2, b2.len() as int, gg), 0 <= i <= a.len()
+    ensures gmat(a, b1, i) == gmat(a, b2, i)
+    decreases i
+{ if i > 0 { lemma_gmat_listing(a, b1, b2, gg, i - 1); lemma_grow_listing(gmat(a, b2, i - 1), a[i - 1], b1, b2, gg); } }
+// the product of two monomial lists (spec/perm_spec.rs) is the product of their keyed item lists
+pub open spec fn pkeyed(t: Seq<v1::Monomial>) -> Seq<(Seq<u64>, F64)> { Seq::new(t.len(), |i: int| (skey(t[i].ids@), t[i].coefficient)) }
+pub proof fn lemma_prow_grow(g: Map<Seq<u64>, real>, a: v1::Monomial, b: Seq<v1::Monomial>, j: int)
+    requires 0 <= j <= b.len()
+    ensures prow(g, a, b, j) == grow(g, (skey(a.ids@), a.coefficient), pkeyed(b), j)
+    decreases j
+{ if j > 0 { lemma_prow_grow(g, a, b, j - 1); } }
+pub proof fn lemma_pmat_gmat(a: Seq<v1::Monomial>, b: Seq<v1::Monomial>, i: int)
+    requires 0 <= i <= a.len()
+    ensures pmat(a, b, i) == gmat(pkeyed(a), pkeyed(b), i)
+    decreases i
+{ if i > 0 { lemma_pmat_gmat(a, b, i - 1); lemma_prow_grow(pmat(a, b, i - 1), a[i - 1], b, b.len() as int); } }
+// SOME listing of a map (any two give the same product map: lemma_gmat_listing)
+pub open spec fn glist(g: Map<Seq<u64>, real>) -> Seq<(Seq<u64>, F64)> { choose|l: Seq<(Seq<u64>, F64)>| klists(l, l.len() as int, g) }
+// self * p, where p lists g with sorted keys: the remainder of that Polynomial * Polynomial, plus what the upcast dropped (vy is the value of the operand before the upcast)
+pub open spec fn rem_mul_up(x: v1::Polynomial, g: Map<Seq<u64>, real>, vy: real, m: Map<u64, F64>) -> real {
+    polynomial_val(x, m) * (vy - ksum(g, pw(m))) + rem_gmul(pkeyed(x.terms@), glist(g), m)
+}
+pub open spec fn keys_sorted_p(p: v1::Polynomial) -> bool { forall|j: int| 0 <= j < p.terms.len() ==> sorted_seq((#[trigger] p.terms[j]).ids@) }
+pub proof fn lemma_pmul_up(x: v1::Polynomial, p: v1::Polynomial, g: Map<Seq<u64>, real>, vy: real, m: Map<u64, F64>)
+    requires plists(p, g), keys_sorted_p(p)
+    ensures polynomial_val(x, m) * polynomial_val(p, m) - rem_mul_polynomial_polynomial(x, p, m) == polynomial_val(x, m) * vy - rem_mul_up(x, g, vy, m)
+{
+    let bp = pkeyed(p.terms@); let n = p.terms.len() as int;
+    assert(bp =~= pitems(p.terms@)) by { assert forall|j: int| 0 <= j < n implies #[trigger] bp[j] == pitems(p.terms@)[j] by { lemma_perm_refl(p.terms[j].ids@); lemma_skey(p.terms[j].ids@, p.terms[j].ids@); } }
+    assert(klists(bp, bp.len() as int, g));
+    let gl = glist(g);
+    assert(klists(gl, gl.len() as int, g));
+    lemma_pmat_gmat(x.terms@, p.terms@, x.terms.len() as int);
+    lemma_gmat_listing(pkeyed(x.terms@), bp, gl, g, x.terms.len() as int);
+    lemma_pitems_sum(p.terms@, n, m); lemma_klist_sum(pitems(p.terms@), n, g, pw(m));
+    let vx = polynomial_val(x, m); let vp = polynomial_val(p, m);
+    assert(vx * (vy - vp) == vx * vy - vx * vp) by(nonlinear_arith);
+}
